@@ -379,6 +379,22 @@ Proof.
   intros b _. apply jws_deserialize_compact_b_spec; assumption.
 Qed.
 
+(* the two public steps of deserialize_compact used separately: validate_compact on whatever
+   extract_compact returned *)
+Lemma jws_extract_then_validate_safe g reg ka value :
+  g_kid_repr g = true -> needs_jws_compact g = true -> jws_reg_wf reg = true ->
+  match jws_extract_compact g P value with
+  | Ok o => safe (jws_validate g P reg ka true (cs_protected o) (cs_hseg o ++ 46 :: cs_pseg o) (cs_sseg o))
+  | Err e => allowed_exn e = true
+  end.
+Proof.
+  intros K N W. unfold needs_jws_compact in N. repeat (apply andb_true_iff in N; destruct N as [N ?]).
+  pose proof (jws_extract_compact_spec g value N H1) as E.
+  destruct (jws_extract_compact g P value) as [o|e]; [|exact E].
+  destruct (cs_protected o) as [| | | | | |l|d] eqn:Pr; try discriminate.
+  apply jws_validate_safe; assumption.
+Qed.
+
 Lemma decode_claims_safe g payload : g_rec_claims g = true -> safe (decode_claims g P payload).
 Proof.
   intro G. unfold decode_claims. destruct (p_json_loads P payload) as [c|e] eqn:J.
